@@ -141,6 +141,28 @@ func (c *Case) Renamed(m map[string]string) *Case {
 	return n
 }
 
+// NeutralPrefix is a spelling prefix of 36 segments that names the directory it is applied in: "." and empty
+// segments only (17 x "./", one doubled slash, 17 x "./").  A path's meaning does not depend on how long its
+// spelling is; the model's spellings are short.
+var NeutralPrefix = strings.Repeat("./", 17) + "/" + strings.Repeat("./", 17)
+
+// Inflated returns the case with every spelling prefixed by NeutralPrefix.
+func (c *Case) Inflated() *Case {
+	n := *c
+	pre := strings.Split(strings.TrimSuffix(NeutralPrefix, "/"), "/")
+	inflate := func(sp []string) []string {
+		if len(sp) > 0 && sp[0] == "" { // a leading slash stays the leading slash
+			return append(append([]string{""}, pre...), sp[1:]...)
+		}
+		return append(append([]string{}, pre...), sp...)
+	}
+	n.Op.Sp = inflate(c.Op.Sp)
+	if c.Op.Sq != nil {
+		n.Op.Sq = inflate(c.Op.Sq)
+	}
+	return &n
+}
+
 // PrefixNames: the second instantiation of the model's names
 var PrefixNames = map[string]string{"a": "sub", "b": "sub.old", "c": "su"}
 
